@@ -419,6 +419,8 @@ class YPPythonCodeGenerator:
         self.loop_level = 0
         self.tabwidth = 2
         self.indentation = 0
+        self.block_level = 0
+        self.bracket_level = 0
     def generate(self,code):
         """code is a YPCode, output is a string"""
         if self.context.debug_filename:
@@ -441,11 +443,13 @@ class YPPythonCodeGenerator:
         unset_break_code = self.l("doBreak = False")
         wrap_code = self.l("for _ in [1]:")
         self.indent()
+        self._enter_block()
         body = list(func.body)
         if body == []:
             code = self.l("pass")
         else:
             code = self.generate_code_list(body)
+        self._leave_block()
         self.dedent()
         # break_code = self.generate_break_code() # level <= 1, not needed
         false_yield_code = self.generate_code_list( [ YPCodeIf(YPCodeExpr(False),[YPCodeYieldFalse()]) ])
@@ -471,10 +475,12 @@ class YPPythonCodeGenerator:
         s = self.l("for %s in %s:" % (loop_var,expression))
         self.indent()
         self._enter_loop()
+        self._enter_block()
         if loop.loop_code == []:
             code = self.l("pass")
         else:
             code = self.generate_code_list(loop.loop_code)
+        self._leave_block()
         self._leave_loop()
         self.dedent()
         # if doBreak
@@ -482,7 +488,9 @@ class YPPythonCodeGenerator:
         return self.lines(s, code, break_code)
     def generate_call(self,call):
         # TODO: check if functionname is a reserved word
+        self._enter_bracket()
         args = ",".join([ a.generate(self) for a in call.args ])
+        self._leave_bracket()
         s = "%s(%s)" % (call.func,args)
         return s
     def generate_yield_false(self,yf):
@@ -501,8 +509,10 @@ class YPPythonCodeGenerator:
         if bb.body != []:
             lines.append( self.l("for _ in [1]:") )
             self.indent()
+            self._enter_block()
         #      {{ body }}
             lines.extend( [ c.generate(self) for c in bb.body ] )
+            self._leave_block()
             self.dedent()
         ## endif
         #   if label:
@@ -532,7 +542,10 @@ class YPPythonCodeGenerator:
     def generate_expr(self,expr):
         return repr(expr.expr)
     def generate_list(self,expr):
-        return "[" + ",".join( [ v.generate(self) for v in expr.l ] ) + "]"
+        self._enter_bracket()
+        items = ",".join( [ v.generate(self) for v in expr.l ] )
+        self._leave_bracket()
+        return "[" + items + "]"
     def generate_value(self,expr):
         # numerals are written in canonical decimal; Python rejects leading zeros
         return str(int(expr.val))
@@ -542,6 +555,20 @@ class YPPythonCodeGenerator:
         self.loop_level += 1
     def _leave_loop(self):
         self.loop_level -= 1
+    # Python refuses to compile more than 20 statically nested blocks or more
+    # than 200 nested brackets; report such clauses instead of emitting them.
+    def _enter_block(self):
+        self.block_level += 1
+        if self.block_level > 20:
+            raise CompilerError(getattr(self.context, 'current_source_file', ''), None, 'clause too large: more than 20 nested goals')
+    def _leave_block(self):
+        self.block_level -= 1
+    def _enter_bracket(self):
+        self.bracket_level += 1
+        if self.bracket_level > 200:
+            raise CompilerError(getattr(self.context, 'current_source_file', ''), None, 'clause too large: term nested too deeply')
+    def _leave_bracket(self):
+        self.bracket_level -= 1
     def indent(self):
         self.indentation += 1
     def dedent(self):
